@@ -103,7 +103,11 @@ func (c14) Batch(seed uint64, wid, batch, count int, deadline time.Time, emit fu
 		if res.DecOverflow {
 			c["decision_buffer_overflow_runs"]++
 		}
+		c["sync_sweep_runs"] += int64(res.Sweeps)
 		if res.Viol != nil {
+			if res.FoundSim != nil {
+				sc.Sim, sc.Sweep = *res.FoundSim, 0
+			}
 			if !res.DecOverflow {
 				// explicit schedule; a run with more switches than the buffer records is
 				// replayed from its seeded schedule source instead
